@@ -377,7 +377,15 @@ int main(int argc, char **argv)
       } else {
         bool xb = (a.size() > p && a[p] == "XGRID");
         colvar_grid<double> *g = state_grid(proxy->colvars, sp, xb);
-        if (a.size() > p && a[p] == "CUR") {
+        if (a.size() > p && a[p] == "BDIST") {
+          // SW <sspec> BDIST x.. : bin_distance_from_boundaries(values)
+          p++;
+          std::vector<colvarvalue> xs;
+          for (int d = 0; d < sp.nd; d++) xs.push_back(colvarvalue(nf()));
+          std::cout << vs_hex(g->bin_distance_from_boundaries(xs)) << " P";
+          for (int d = 0; d < sp.nd; d++) std::cout << " " << (g->periodic[d] ? 1 : 0);
+          std::cout << "\n";
+        } else if (a.size() > p && a[p] == "CUR") {
           // SW <sspec> CUR z.. : the variables are evaluated at z.. (one engine step) and the overloads that take the
           // current values of the variables are called: current_bin_scalar, _bound, _fraction, get_colvars_index(_bound),
           // current_bin_flat_bound
